@@ -482,6 +482,11 @@ func (p *twkbParser) nextPolygon() (Polygon, error) {
 		ls := NewLineString(NewSequence(coords, p.ctype))
 		rings = append(rings, ls)
 	}
+	if len(rings) == 0 {
+		// An empty Polygon (e.g. as a member of a MultiPolygon) still has the
+		// coordinates type given by the headers.
+		return Polygon{}.ForceCoordinatesType(p.ctype), nil
+	}
 	return NewPolygon(rings), nil
 }
 
@@ -595,6 +600,14 @@ func (p *twkbParser) nextGeometryCollection() (GeometryCollection, error) {
 			return GeometryCollection{}, err
 		}
 		p.pos += nbytes // Sub-parser's geometry has been read, so ensure it is skipped.
+		if g.IsEmpty() {
+			// Empty members are written without the extended precision
+			// header, so they don't know whether they have Z or M values.
+			// They have the coordinates type of the collection (otherwise
+			// they would cause the non-empty members to lose their Z and M
+			// values when the collection is constructed).
+			g = g.ForceCoordinatesType(p.ctype)
+		}
 		geoms = append(geoms, g)
 	}
 	return NewGeometryCollection(geoms), nil
